@@ -140,8 +140,12 @@ def gb_result(ctx, s):
 C_GENERATE = Contract(
     f"{UT}:generate_batches", setup=gb_setup, requires=gb_requires, ensures=gb_ensures, result=gb_result,
     loops={0: LoopSpec(
-        inv=lambda s: [("idx=start+P(k)", lift(s.idx) == lift(s.start_index) + s.batch_sizes.psum(s.k))],
-        yields=lambda s: (S(s.start_index) + Sym(s.batch_sizes.psum(s.k)), S(s.start_index) + Sym(s.batch_sizes.psum(lift(s.k) + 1))),
+        # stated over the loop's iterable and its running position, whatever the locals are called: every integer the body carries
+        # from one iteration to the next (bound before the loop) is the start of batch k
+        inv=lambda s: [(f"running-position({n})=start+P(k)", lift(v) == lift(s.start_index) + s.loop_iterable.psum(s.k))
+                       for n, v in sorted(s.loop_carried.items()) if isinstance(v, Sym)]
+                      + [("the-loop-runs-over-the-sizes-of-subdivide_batches-and-carries-a-position", hasattr(s.loop_iterable, "psum") and any(isinstance(v, Sym) for v in s.loop_carried.values()))],
+        yields=lambda s: (S(s.start_index) + Sym(s.loop_iterable.psum(s.k)), S(s.start_index) + Sym(s.loop_iterable.psum(lift(s.k) + 1))),
     )},
 )
 
